@@ -174,6 +174,8 @@ def stop_model(rates, max_cycles, fitness_error, early):
 def make_optimizer(case):
     cls = env.optimizer_classes()[case["opt"]]
     cfg = env.config_class(case["opt"])(**case["cfg"])
+    if case.get("prior_cfg"):
+        return cls(env.config_class(case["opt"])(**case["prior_cfg"])), cfg
     return cls(cfg), cfg
 
 
@@ -222,6 +224,10 @@ def run_case(case, cpu_budget=120.0, record_args=False, delay=None, workdir=None
             pass
         finally:
             tasks.unregister_run(prid)
+    if case.get("prior_cfg"):
+        import json as _json
+        opt.set_config_parameters(_json.loads(_json.dumps(case["cfg"])))
+        cfg = opt.configuration
     before_cfg = canon(cfg)
     before_task = canon(task)
     old = signal.signal(signal.SIGVTALRM, _on_alarm)
